@@ -133,9 +133,9 @@ Proof.
   intros. rewrite hand_over_eq. destruct (ho_grant name s) as [[[a w] q']|]; [|done].
   apply tr_ext_vemit; [done|]. by rewrite vset_pc_v_trace.
 Qed.
-Lemma tr_ext_spawn_all tr0 (l : list (str * list clock)) s : tr_ext tr0 (v_trace s) →
-  tr_ext tr0 (v_trace (fold_left (λ s '(sid, _), spawn (SConnEnd sid) VDsFlag s) l s)).
-Proof. intros H. apply (fold_left_inv (λ s', tr_ext tr0 (v_trace s'))); [done|]. intros s' [sid ?] H' _. by rewrite spawn_v_trace. Qed.
+Lemma tr_ext_spawn_all tr0 (l : list str) s : tr_ext tr0 (v_trace s) →
+  tr_ext tr0 (v_trace (fold_left (λ s sid, vemit (SvConnEnd sid) (spawn (SConnEnd sid) VDsFlag s)) l s)).
+Proof. intros H. apply (fold_left_inv (λ s', tr_ext tr0 (v_trace s'))); [done|]. intros s' sid H' _. first [apply tr_ext_vemit|apply tr_xs_vemit]; [done|]. by rewrite spawn_v_trace. Qed.
 Lemma tr_ext_fire_due tr0 s : tr_ext tr0 (v_trace s) → tr_ext tr0 (v_trace (fire_due s)).
 Proof.
   intros H. unfold fire_due. apply (fold_left_inv (λ s', tr_ext tr0 (v_trace s'))); [done|].
@@ -150,8 +150,8 @@ Ltac tr_tac :=
                | progress (autorewrite with svframe) | progress simpl ].
 
 (** v_locks through the folds *)
-Lemma spawn_all_v_locks (l : list (str * list clock)) s : v_locks (fold_left (λ s '(sid, _), spawn (SConnEnd sid) VDsFlag s) l s) = v_locks s.
-Proof. apply (fold_left_inv (λ s', v_locks s' = v_locks s)); [done|]. intros s' [sid ?] H' _. by rewrite spawn_v_locks. Qed.
+Lemma spawn_all_v_locks (l : list str) s : v_locks (fold_left (λ s sid, vemit (SvConnEnd sid) (spawn (SConnEnd sid) VDsFlag s)) l s) = v_locks s.
+Proof. apply (fold_left_inv (λ s', v_locks s' = v_locks s)); [done|]. intros s' sid H' _. by rewrite vemit_v_locks, spawn_v_locks. Qed.
 Lemma fire_due_v_locks s : v_locks (fire_due s) = v_locks s.
 Proof.
   unfold fire_due. apply (fold_left_inv (λ s', v_locks s' = v_locks s)); [done|].
